@@ -154,7 +154,29 @@ func verifReach(name string)                   {}
 func verifBeginOp()                            {}
 func verifEndOp()                              {}
 func verifProtect(v any)                       {}
-func verifPoolAdversary(on bool)               {}
+func verifPoolAdversary(on bool) {
+	if !on || verifCur == nil {
+		return
+	}
+	// the adversary of C11: takes the pooled OCRA buffer, scribbles on it, leaves it with the
+	// model's length and puts it back, so that the next Get (same goroutine) receives it
+	n := int(verifCur.Vars["pool_len"])
+	b := rfc6287BufPool.Get().(*[]byte)
+	full := (*b)[:cap(*b)]
+	for i := range full {
+		full[i] = 0xA5
+	}
+	if n > len(full) {
+		n = len(full)
+	}
+	*b = full[:n]
+	rfc6287BufPool.Put(b)
+	c := rfc4226BufPool.Get().(*[8]byte)
+	for i := range c {
+		c[i] = 0xA5
+	}
+	rfc4226BufPool.Put(c)
+}
 func verifTraceOn(on bool)                     {}
 func verifFrameViolations() int                { return 0 }
 func verifUseModelDigests()                    { verifUseDigests = true }
@@ -401,4 +423,12 @@ func verifBytesSym(name string, max, spare int) []byte {
 		n = max
 	}
 	return b[:n]
+}
+
+// verifByteAt reads the backing array at index i regardless of len (i < cap), 0 outside.
+func verifByteAt(b []byte, i int) byte {
+	if i < 0 || i >= cap(b) {
+		return 0
+	}
+	return b[:cap(b)][i]
 }
